@@ -65,6 +65,18 @@ CHECKS.update({
         "Trusted: the cell oracle. Zero-length list-two events may or may not be returned.",
         "DESIGN.md 3.4, 4 C15",
     ),
+    "C16": (
+        "bounded-exhaustive enumeration of event lists over all (presence, value) combinations of keys x ordered key lists, conservation/partition oracles",
+        "merge_events_by_keys is run on every list of <=4 events over the 16 data shapes (keys a,b each absent/x/y/[x]) with durations 2^i (a summed duration identifies its group) x 10 ordered key lists and compared with the group-by of (presence, value); chunk_events_by_key on every key-bearing sequence of <=4 events (concatenation, value-homogeneous runs, summed durations, maximal runs); sort/limit/filter/exclude on full products (ordered permutation, prefix, complementary sub-sequences); inputs compared before/after.",
+        "Trusted: the reference group-by. Empty key list, nested list values and dict values are outside the alphabet.",
+        "DESIGN.md 3.4, 4 C16",
+    ),
+    "C19": (
+        "bounded-exhaustive enumeration of rule lists x event shapes, reference matcher written without `re`",
+        "categorize and tag are run with every ordered rule list of <=2 rules over 288 rules (4 categories with depth ties x 6 regexes incl. empty/unicode x ignore_case x 6 select_keys forms) and every list of 3 over 24 rules, on 8 event shapes (matching strings in different keys, non-string values holding matching text, missing keys, pre-existing $keys); deepest-later-wins and rule-order tags are compared with a reference; split_url_events over a 96-URL component product and simplify_string over a 240-title product with hand-written references; length, order, timestamps, durations and unrelated data compared.",
+        "Trusted: the reference matcher (literal/anchored tests). Regexes beyond literals and '^x' are outside the alphabet.",
+        "DESIGN.md 3.4, 4 C19",
+    ),
 })
 
 NOT_YET = {}
